@@ -386,8 +386,17 @@ func Render(s *Spec, o RenderOpts) string {
 		b.WriteString(s.NTs[r.L].Name + l.ws() + ":")
 		for {
 			r = s.Rules[i]
-			for _, x := range r.R {
+			// a block in the middle of a right part (the yacc idiom for a side effect at that point): yaccgo keeps the
+			// symbols around it and takes the LAST block as the rule's action, so a block that does nothing is neutral
+			mid := -1
+			if len(r.R) >= 2 && l.chance(1, 8) {
+				mid = l.r.Intn(len(r.R) - 1)
+			}
+			for k, x := range r.R {
 				b.WriteString(l.ws() + s.SymName(x))
+				if k == mid {
+					b.WriteString(l.ws() + "{ /* mid-rule note */ }")
+				}
 			}
 			if r.Prec >= 0 {
 				b.WriteString(l.ws() + "%prec" + l.ws() + s.Terms[r.Prec].Key())
@@ -421,10 +430,19 @@ func Epilogue(s *Spec, o RenderOpts) string {
 	if o.Epi == EpiNone {
 		return "// no epilogue\n"
 	}
-	if o.Variant.Lang == "go" {
-		return goEpilogue(s, o)
+	// user code after the second %% may itself contain the two characters %% (a format string, a comment)
+	extra := ""
+	if o.Layout != nil && len(s.Rules)%3 == 1 {
+		if o.Variant.Lang == "go" {
+			extra = "\n// everything after the second %% mark is copied verbatim\nvar _ = \"100%%\"\n"
+		} else {
+			extra = "\n// everything after the second %% mark is copied verbatim\nvar _pct = \"100%%\";\n"
+		}
 	}
-	return tsEpilogue(s, o)
+	if o.Variant.Lang == "go" {
+		return goEpilogue(s, o) + extra
+	}
+	return tsEpilogue(s, o) + extra
 }
 
 func startTag(s *Spec) string {
@@ -496,7 +514,7 @@ func goEpilogue(s *Spec, o RenderOpts) string {
 			break
 		}
 	}
-	b.WriteString("func GetToken(input string, val *ValType, pos *int) int {\n\tif HookNext == nil {\n\t\tif vbootSteps++; vbootSteps > 3000 {\n\t\t\tpanic(\"boot parse: step budget\")\n\t\t}\n\t\treturn " + goEOF(s) + " // no environment yet (a parse during package initialisation): empty input\n\t}\n\tidx, v := HookNext(input, " + incoming + ")\n\t_ = v\n\t*val = ValType{}\n\tswitch idx {\n\tcase -1:\n\t\treturn " + goEOF(s) + "\n\tcase -2:\n\t\treturn v\n")
+	b.WriteString("func GetToken(input string, val *ValType, pos *int) int {\n\tif HookNext == nil {\n\t\tif vbootSteps++; vbootSteps > 3000 {\n\t\t\tpanic(\"boot parse: step budget\")\n\t\t}\n\t\treturn " + goEOF(s) + " // no environment yet (a parse during package initialisation): empty input\n\t}\n\tidx, v := HookNext(input, " + incoming + ")\n\t_ = v\n\t*pos++ // the cursor is the lexer's own: here it counts the tokens handed out\n\t*val = ValType{}\n\tswitch idx {\n\tcase -1:\n\t\treturn " + goEOF(s) + "\n\tcase -2:\n\t\treturn v\n")
 	b.WriteString(goTokenCases(s))
 	b.WriteString("\t}\n\treturn -1\n}\n\n")
 	st := startTag(s)
